@@ -62,6 +62,7 @@ type Script struct {
 	C17 *C17Script `json:"c17,omitempty"`
 	C20 *C20Script `json:"c20,omitempty"`
 	C18 *C18Script `json:"c18,omitempty"`
+	C20Op *C20OpScript `json:"c20op,omitempty"`
 }
 
 func (s *Script) JSON() string {
@@ -227,6 +228,9 @@ func RunScript(t *testing.T, s *Script, oracles []Oracle, keepTrace bool) (res *
 	}
 	if s.C18 != nil {
 		return runC18(t, s.C18)
+	}
+	if s.C20Op != nil {
+		return runC20Op(t, s.C20Op)
 	}
 	func() {
 		defer func() {
